@@ -399,7 +399,7 @@ def fibre_derivative_rule(ctx):
     from ..femchain import Chain
 
     repo = ctx.repo
-    r = ctx.rule("R10.9", "member abscissa: the shape-function derivative used by the beam operators is taken along the fibre direction i of the member frame, for members drawn in either direction, on the x axis (inDim 1), in the plane and in space", min_instances=6)
+    r = ctx.rule("R10.9", "member abscissa: the shape-function derivative used by the beam operators is taken along the fibre direction i of the member frame, for members drawn in either direction, on the x axis (inDim 1), in the plane and in space", min_instances=12)
     lib = ElemLib(repo)
     f = repo.method("EasyFEA.FEM._group_elem._GroupElem", "Get_dN_e_pg")
     cases = {
@@ -428,9 +428,12 @@ def fibre_derivative_rule(ctx):
             return XArray(v.shape, [x / nrm for x in v.data])
         return fe_hook_full(fn, args, kwargs)
 
-    for label, (inDim, ends) in cases.items():
+    # the element classes the beam simulation works on (the derivative is the one THEY hand out)
+    beam_classes = [repo.cls("EasyFEA.FEM.Elems._beam." + n) for n in ("EULER_BERNOULLI2", "TIMOSHENKO2")]
+    for label, (inDim, ends) in [(f"{c.name}: {lab}", v) for c in beam_classes for lab, v in cases.items()]:
         r.instance(fn=f.qualname)
         ch = Chain(lib, "SEG2", symbolic_vertices=False, fe=True)
+        ch.obj.cls = next(c for c in beam_classes if label.startswith(c.name + ":"))
         a = ch.obj.attrs
         a["inDim"] = inDim
         a["coord"] = XArray.from_nested([list(p) for p in ends])
